@@ -1,8 +1,8 @@
 //! C07 - block partitioning equals RFC 5052 §9.1; both ends agree; no overflow.
 use serde_json::json;
 use vh::report::*;
-use vh::session::{ref_partition, Fec, ObjSpec, OtiSpec, SenderSpec};
-use vh::scenario::{emit, receive_stream, EmitOpts, RxOpts};
+use vh::session::{ref_partition, Fec, ObjSpec, OtiSpec, SPkt, SenderSpec};
+use vh::scenario::{emit, receive, receive_stream, EmitOpts, RxOpts};
 use vh::util::{self, Rng};
 
 fn check_triple(b: u64, l: u64, e: u64, full_sum: bool) -> Result<(u64, String), Violation> {
@@ -216,6 +216,66 @@ fn main() {
             }
             cr
         }));
+        // what flute's receiver side rebuilds from an in-band EXT_FTI built by flute's sender side:
+        // RaptorQ (6) and Raptor (1) do not carry B, it is derived from (F, T, Z); the rebuilt OTI must
+        // give the sender's partition. Lattice of lengths around every multiple of Z*T.
+        let fti_cases = ctx.tier.pick(400usize, 6000);
+        gens.push(Gen::new("ext_fti_rebuild", fti_cases, move |ctx, i| {
+            use flute::core::FECEncodingID;
+            let mut rng = Rng::keyed(ctx.seed, "C07fti", 0, i as u64);
+            let mut cr = CaseResult::default();
+            let (fec, fid) = *rng.pick(&[(Fec::RaptorQ, FECEncodingID::RaptorQ), (Fec::Raptor, FECEncodingID::Raptor), (Fec::RaptorQ, FECEncodingID::RaptorQ),
+                (Fec::NoCode, FECEncodingID::NoCode), (Fec::Rs28, FECEncodingID::ReedSolomonGF28), (Fec::Rs28Us, FECEncodingID::ReedSolomonGF28UnderSpecified)]);
+            let e = *rng.pick(&[4u16, 8, 16, 64, 1024, 1400, 1428]);
+            let bmax = match fec { Fec::Rs28 | Fec::Rs28Us => 250u64, Fec::Raptor => 8192, _ => 56403 };
+            let b = (*rng.pick(&[1u64, 2, 3, 4, 5, 7, 8, 10, 16, 63, 64, 100, 255, 1000])).min(bmax) as u32;
+            let mut checked = 0u64;
+            let mut shapes = std::collections::BTreeSet::new();
+            for _ in 0..200 {
+                // Z blocks, then a length on the lattice Z*T*k + r
+                let z = rng.range(1, 12);
+                let k = rng.range(1, b as u64);
+                let r = match rng.below(4) { 0 => 0, 1 => rng.range(1, z), 2 => rng.range(0, z * e as u64), _ => z * e as u64 - 1 };
+                let l = (z * e as u64 * k + r).max(1);
+                let p = ref_partition(b as u128, l as u128, e as u128);
+                if p.n == 0 || p.n > 255 {
+                    continue;
+                }
+                let oti = flute::verif::oti_with_scheme(fid, e, b, if fec == Fec::NoCode { 0 } else { 2 }, p.n as u16, 1, 4, true);
+                let f = flute::verif::PktFields { payload: vec![0u8; e as usize], transfer_length: l, esi: 0, sbn: 0, toi: 1, fdt_id: None,
+                    cenc: flute::core::lct::Cenc::Null, inband_cenc: false, close_object: false, source_block_length: p.k(0) as u32, sender_current_time: false };
+                let wit = json!({"fec": fec.name(), "B": b, "E": e, "L": l, "Z": p.n as u64});
+                let r = util::guarded(|| {
+                    let bytes = flute::verif::new_alc_pkt(&oti, &0u128, 1, &f, flute::sender::Profile::RFC6726, util::at(0));
+                    flute::core::alc::parse_alc_pkt(&bytes).map(|ap| (ap.oti.clone(), ap.transfer_length))
+                });
+                match r {
+                    Ok(Ok((Some(roti), Some(tl)))) => {
+                        checked += 1;
+                        let q = ref_partition(roti.maximum_source_block_length as u128, tl as u128, roti.encoding_symbol_length as u128);
+                        shapes.insert((p.n, p.nb_large > 0, l % e as u64 == 0));
+                        if q != p || tl != l {
+                            cr.violations.push(Violation::new("ext_fti_partition", format!(
+                                "OTI rebuilt from EXT_FTI (B={},E={},L={}) gives partition {:?}; the sender's (B={},E={},L={}) is {:?}",
+                                roti.maximum_source_block_length, roti.encoding_symbol_length, tl, q, b, e, l, p)).with("fec", fec.name()).witness(wit));
+                        }
+                    }
+                    Ok(Ok(_)) => cr.violations.push(Violation::new("ext_fti_missing", "packet built with in-band FTI parses without OTI / transfer length").with("fec", fec.name()).witness(wit)),
+                    Ok(Err(e)) => cr.violations.push(Violation::new("ext_fti_unparsable", format!("flute cannot parse its own packet: {:?}", e)).with("fec", fec.name()).witness(wit)),
+                    Err(pn) => cr.violations.push(Violation::new("panic", format!("{} @ {}", pn.msg, pn.short_loc())).with("site", pn.file()).with("fec", fec.name()).witness(wit)),
+                }
+            }
+            limit(&mut cr.violations, 2);
+            cr.count("ext_fti_rebuilt", checked);
+            if checked > 0 {
+                cr.shape = Some(util::fnv(&format!("fti|{}|{}|{}|{:?}", fec.name(), e, b, shapes)));
+            }
+            cr.states = shapes.iter().map(|s| util::fnv(&format!("fti{:?}", s))).collect();
+            if i % 97 == 0 {
+                cr.sample = Some(json!({"fec": fec.name(), "E": e, "B": b, "triples_checked": checked}));
+            }
+            cr
+        }));
         // end to end: structure on the wire == reference partition, receiver delivers
         let e2e = ctx.tier.pick(600usize, 30000);
         gens.push(Gen::new("end_to_end", e2e, move |ctx, i| {
@@ -298,6 +358,48 @@ fn main() {
                         "block {} carries {} distinct source ESIs on the wire, partition says {}", sbn, got, k))
                         .with("fec", fec.name()).witness(wit.clone()));
                     return cr;
+                }
+            }
+            // the OTI flute's own parser rebuilds from the in-band EXT_FTI gives the sender's partition
+            // (RaptorQ / Raptor do not carry B: the receiver derives it from F, T, Z)
+            let mut fti_checked = 0u64;
+            for pk in em.stream.iter().filter(|p| p.toi() == toi) {
+                if let Ok(ap) = flute::core::alc::parse_alc_pkt(&pk.bytes) {
+                    if let (Some(roti), Some(tl)) = (ap.oti.as_ref(), ap.transfer_length) {
+                        fti_checked += 1;
+                        let q = ref_partition(roti.maximum_source_block_length as u128, tl as u128, roti.encoding_symbol_length as u128);
+                        if q != p || tl != l {
+                            cr.violations.push(Violation::new("ext_fti_partition", format!(
+                                "flute's parser rebuilds OTI (B={},E={},L={}) from the in-band EXT_FTI: partition {:?}, the sender's is {:?}", roti.maximum_source_block_length, roti.encoding_symbol_length, tl, q, p))
+                                .with("fec", fec.name()).witness(wit.clone()));
+                            break;
+                        }
+                    }
+                }
+            }
+            cr.count("ext_fti_decoded_by_flute", fti_checked);
+            // ... and a receiver that learns the OTI from the first object packet (FDT arrives second) delivers
+            if oti.inband_fti {
+                let objs: Vec<&SPkt> = em.stream.iter().filter(|p| p.toi() == toi).collect();
+                let fdts: Vec<&SPkt> = em.stream.iter().filter(|p| p.toi() == 0).collect();
+                if objs.len() >= 2 && !fdts.is_empty() {
+                    let order: Vec<&SPkt> = objs[..1].iter().chain(fdts.iter()).chain(objs[1..].iter()).cloned().collect();
+                    let rx2 = util::guarded(|| receive(&em.spec.endpoint(), order.iter().map(|p| (p.bytes.as_slice(), p.t)), &RxOpts::default(), None));
+                    match rx2 {
+                        Ok(rx2) => {
+                            let c2 = rx2.log.completes(toi);
+                            cr.count("object_first_receptions", 1);
+                            if c2.len() != 1 || c2[0].data != data {
+                                cr.violations.push(Violation::new("receiver_disagrees_oti_from_ext_fti", format!(
+                                    "receiver that learns the OTI from the first object packet (EXT_FTI) did not rebuild the object (complete writers: {})", c2.len()))
+                                    .with("fec", fec.name()).witness(wit.clone()));
+                            }
+                        }
+                        Err(pn) => {
+                            cr.violations.push(Violation::new("panic", format!("object-first reception panicked: {} @ {}", pn.msg, pn.short_loc()))
+                                .with("site", pn.file()).with("fec", fec.name()).witness(wit.clone()));
+                        }
+                    }
                 }
             }
             // receiver agrees: delivered byte exact, and reported OTI gives the same partition
